@@ -12,7 +12,8 @@ RULE = ("Hypothesis-generated bridge programs in the C profile (primitives, enum
         "equals the drawn return (incl. Option/Result arm, write-out strings, in-place mutation of &mut slices); C sizeof/_Alignof/offsetof of every struct and enum "
         "equal Rust's size_of/align_of/offset_of!; primitive parameter and return types in the header are the documented C spellings. A case = one call. "
         "Non-trivial: a call with a non-zero argument whose program has a by-value struct with padding or nesting, an option or two-payload result, and a slice/string. "
-        "Distinct = distinct (program, method, call vector).")
+        "Distinct = distinct (program, method, call vector). "
+        "Bridged-trait leg (fixed bridge, Hypothesis-drawn seeds): a C implementation of a trait vtable (scalars, enum, by-value struct, Option<primitive|enum>, unit; data pointer and destructor) is called by Rust through the generated header; every value the C functions receive and every answer Rust folds into a checksum must match a Python model.")
 ASSUME = [
     "x86-64 SysV only; gcc 12 and clang 14 at -O0 and -O2 (chosen per program) with AddressSanitizer and UBSan (leak detection off: borrowed return values are deliberately leaked by the harness bodies)",
     "callbacks: argument types are primitives, enums and structs, return types unit or primitive (what the generator draws); custom traits are exercised for well-formedness only (C09)",
@@ -249,13 +250,22 @@ def consistent(p2, plan):
 def run(ctx):
     n = 20 if ctx.quick else 300
     m = pbt.run_workers("checks.c01", "worker", 14, ctx.seed, {"n": n, "ncalls": 3 if ctx.quick else 8})
-    cov = {"evaluations": m["evaluations"], "distinct_nontrivial": m["distinct_nontrivial"], "rule": RULE, "samples": m["samples"], "labels": m["labels"]}
-    return {"coverage": cov, "assumptions": ASSUME, "violations": m["violations"]}
+    t = pbt.run_workers("checks.c01_traits", "worker", 2, ctx.seed + 5, {"n": 60 if ctx.quick else 2500})
+    labels = dict(m["labels"])
+    labels.update(t["labels"])
+    cov = {"evaluations": m["evaluations"] + t["evaluations"], "distinct_nontrivial": m["distinct_nontrivial"] + t["distinct_nontrivial"], "rule": RULE,
+           "samples": m["samples"][:3] + t["samples"][:1], "labels": labels}
+    return {"coverage": cov, "assumptions": ASSUME, "violations": m["violations"] + t["violations"]}
 
 
 def replay(ctx):
     art = build.ensure_repo_artifacts()
     c = json.load(open(ctx.replay))["case"]
+    if c.get("kind") in ("trait", "trait-setup"):
+        from . import c01_traits
+        msg = c01_traits.replay_case(c.get("case") or [1, 1])
+        print(msg or "replay ok: the foreign trait implementation saw and answered every value exactly")
+        return {"violations": [{"replay": ctx.replay, "message": msg}] if msg else []}
     work = build.workdir("c01-replay")
     fails, res = evaluate(art, work, c["program"], c["plan"], cc=c.get("cc", "gcc"), opt=c.get("opt", "-O0"))
     build.rm_workdir(work)
